@@ -26,7 +26,31 @@ func vxH_C05_scanner() {
 	tailPos := footPos + StorePageSize // next page boundary
 	img := make([]byte, tailPos)
 	copy(img, good)
-	switch vxChoose(4) {
+	switch vxChoose(5) {
+	case 4: // a newer footer whose first and last bytes reached the disk but not all of the middle
+		nf := make([]byte, len(foot))
+		copy(nf, foot)
+		content := len(foot) - footerBegLen - footerEndLen
+		switch vxChoose(4) {
+		case 0, 1: // the JSON is damaged (sector-sized tear; a page-sized one for footers of 3+ pages)
+			var tp [8]byte
+			StoreEndian.PutUint64(tp[:], uint64(tailPos))
+			copy(nf[footerBegLen+content:], tp[:])
+			from := footerBegLen + 3
+			if vxChoose(2) == 1 {
+				from = footerBegLen + content/2
+			}
+			for i := from; i < from+8 && i < footerBegLen+content; i++ {
+				nf[i] = 0
+			}
+		case 2: // the offset recorded at the end does not match the position
+		case 3: // the length recorded at the end does not match the one at the beginning
+			var tp [8]byte
+			StoreEndian.PutUint64(tp[:], uint64(tailPos))
+			copy(nf[footerBegLen+content:], tp[:])
+			nf[footerBegLen+content+8]++
+		}
+		img = append(img, nf...)
 	case 0: // torn copy of a footer: only its first n bytes made it
 		cuts := []int{1, 6, 12, 20, 22, 30, len(foot) - 13, len(foot) - 1}
 		n := cuts[vxChoose(len(cuts))]
